@@ -1,0 +1,4 @@
+// Package witness re-exports the internal witness implementation for
+// verification harnesses outside this module; it is empty unless built with
+// the "verif" build tag.
+package witness
